@@ -315,6 +315,21 @@ impl Machine {
                 let m = key.encrypt_with_digest(self.env(other)?.tagged_cbor().to_cbor_data(), self.env(e)?.digest().into_owned(), Some(nonce));
                 res(Envelope::try_from(m))
             }
+            ["miscompress_near", e, k] => {
+                // the element's own content, declared under its digest with one byte flipped
+                let e = self.env(e)?; let k: usize = k.parse().ok()?;
+                let mut d = e.digest().data().to_vec(); d[k % 32] ^= 0x01;
+                let c = bc_components::Compressed::from_uncompressed_data(e.tagged_cbor().to_cbor_data(), Some(Digest::from_data_ref(&d).ok()?));
+                res(Envelope::try_from(c))
+            }
+            ["misdeclare_near", e, k, key, n] => {
+                let e = self.env(e)?; let k: usize = k.parse().ok()?;
+                let mut d = e.digest().data().to_vec(); d[k % 32] ^= 0x01;
+                let key = SymmetricKey::from_data_ref(hex::decode(key).ok()?).ok()?;
+                let nonce = Nonce::from_data_ref(hex::decode(n).ok()?).ok()?;
+                let m = key.encrypt_with_digest(e.tagged_cbor().to_cbor_data(), Digest::from_data_ref(&d).ok()?, Some(nonce));
+                res(Envelope::try_from(m))
+            }
             ["miscompress", e, other] => {
                 let c = bc_components::Compressed::from_uncompressed_data(self.env(other)?.tagged_cbor().to_cbor_data(), Some(self.env(e)?.digest().into_owned()));
                 res(Envelope::try_from(c))
